@@ -73,6 +73,19 @@ func ceilMs(d time.Duration) int64 {
 	if d%time.Millisecond > 0 {
 		ms++
 	}
+	return clampMs(ms)
+}
+
+// clampMs keeps logged numbers inside TLC's 32-bit integers; values of
+// that size are wrong whatever they are exactly.
+func clampMs(ms int64) int64 {
+	const lim = 1000000000
+	if ms > lim {
+		return lim
+	}
+	if ms < -lim {
+		return -lim
+	}
 	return ms
 }
 
@@ -223,7 +236,7 @@ func (o *object) observe() obsRec {
 		}
 		r.Err = errName(o.ctx.Err())
 		if v, ok := o.ctx.Value(re_clock.UnsuspendedDurationKey{}).(time.Duration); ok {
-			r.Unsusp = int64(v / time.Millisecond)
+			r.Unsusp = clampMs(int64(v / time.Millisecond))
 			r.Rem = int64(v % time.Millisecond)
 		} else {
 			r.Unsusp = -1
@@ -931,9 +944,14 @@ func TestEnumerate(t *testing.T) {
 						}
 					}
 					p := pat
-					for i := 0; i < h; i++ {
-						want := p % levels
-						p /= levels
+					// After the pattern the last level is kept until both
+					// bounds of the object have certainly passed.
+					for i := 0; i < max(h, int(timeout+ms)+1); i++ {
+						want := level
+						if i < h {
+							want = p % levels
+							p /= levels
+						}
 						if i == 0 {
 							// The object is created at instant 0, before
 							// or after the first suspension starts.
